@@ -15,6 +15,7 @@ def cases(draw, tier):
         c['faults'] = 'all'
     else:
         c['faults'] = draw(fault_strategy(c['targets'], n=5))
+    c['ctl_sweep'] = tier == 'thorough' and draw(st.integers(0, 2)) == 0
     return c
 
 
@@ -192,6 +193,7 @@ class C04(Check):
         prog = case['prog']
         mk = lambda: Probe(b_step=4000, b_total=40000)  # noqa
         it, oc, exc, p = execute(prog, mk())
+        it0 = it
         out.evals = 1
         analyse(out, prog, it, oc, exc, ' faults=None')
         N = p.k
@@ -208,6 +210,14 @@ class C04(Check):
             if any(f[4] is not None for f in it.fault_log):
                 out.features.add('fault_applied')
             analyse(out, prog, it, oc, exc, ' faults=%r' % (faults,))
+        if case.get('ctl_sweep'):
+            # the notification of every until(flag 0) placed in every round of every time step of the run
+            from vlib.gen import ctl_variants
+            for q in ctl_variants(prog, it0):
+                it, oc, exc, p = execute(q, mk())
+                out.evals += 1
+                analyse(out, q, it, oc, exc, ' ctl=%r' % ([r['steps'] for r in q['roots'] if r['name'] == 'ctl'][0][:1],))
+            out.features.add('ctl_sweep')
         return out
 
 
